@@ -192,8 +192,9 @@ class CellSim(object):
         src = self.decl_apps[pool[idx % len(pool)]]
         demand = [max(0, d - s) for d, s in zip(src['demand'], shrink)]
         aff_i = [a['name'] for a in self.affs].index(src['aff'])
+        group = None if src['group'] is None else int(src['group'][1:])
         return self.op_app(src['alloc'], aff_i, demand, prio, src['lease'],
-                           src['retention'], None, src['inst_traits'],
+                           src['retention'], group, src['inst_traits'],
                            src['once'])
 
     def op_rm(self, idx):
